@@ -694,6 +694,15 @@ class Share:
     def _desire_block_hashes(self, desire, o, segnum):
         (want_it, need_it, gotta_gotta_have_it) = desire
 
+        # until the UEB tells us the real number of segments, both hash
+        # trees are sized from a guess: the positions computed from them may
+        # lie past the end of the share (real segments larger than guessed),
+        # so they are merely wanted. Not getting them must not abandon the
+        # share: once the UEB arrives the request is re-evaluated (or
+        # rejected with BADSEGNUM).
+        if not self._node.have_UEB:
+            need_it = want_it
+
         # block hash chain
         for hashnum in self._commonshare.get_desired_block_hashes(segnum):
             need_it.add(o["block_hashes"]+hashnum*HASH_SIZE, HASH_SIZE)
